@@ -251,6 +251,216 @@ theorem isIEOpener_head (op : Str) (h : IsIEOpener op) : ∃ r, op = '<' :: r :=
   obtain ⟨w1, w2, _, _, rfl⟩ := h
   exact ⟨_, rfl⟩
 
+/-! ### the declarative reading of an item sequence (regular-expression semantics of the prefix)
+
+  `Matches ps m`: the text `m` is matched by the item sequence in *some* way (each `one` takes a character of its
+  class, each `star` any run of characters of its class).  A backtracking matcher finds a match at a position
+  iff there is `m` with `Matches ps m` in front of the text there.  For sequences in which every star is
+  followed by a `one` of a disjoint class (`Det`; the three patterns of `utils.py` are of this kind) the greedy
+  `matchItems` finds it, and it is the only one. -/
+
+inductive Matches : List PItem → Str → Prop
+  | nil : Matches [] []
+  | one (cs : List Char) (ps : List PItem) (c : Char) (m : Str) :
+      cs.contains c = true → Matches ps m → Matches (.one cs :: ps) (c :: m)
+  | star (cs : List Char) (ps : List PItem) (w m : Str) :
+      (∀ c ∈ w, cs.contains c = true) → Matches ps m → Matches (.star cs :: ps) (w ++ m)
+
+/-- every star is followed by a single-character item whose class is disjoint from the star's -/
+def Det : List PItem → Prop
+  | [] => True
+  | .one _ :: ps => Det ps
+  | .star cs :: .one cs' :: ps => (∀ c ∈ cs', cs.contains c = false) ∧ Det (.one cs' :: ps)
+  | .star _ :: _ => False
+
+theorem mem_takeWhile_imp (p : Char → Bool) : ∀ (l : Str) (x : Char), x ∈ l.takeWhile p → p x = true := by
+  intro l
+  induction l with
+  | nil => intro x hx; simp at hx
+  | cons c cs ih =>
+    intro x hx
+    by_cases hc : p c = true
+    · simp only [List.takeWhile_cons, hc, if_true] at hx
+      rcases List.mem_cons.mp hx with e | e
+      · rw [e]; exact hc
+      · exact ih x e
+    · simp [hc] at hx
+
+/-- what `matchItems` returns is a match in the declarative sense, and the text splits accordingly -/
+theorem matchItems_sound : ∀ (ps : List PItem) (z m r : Str), matchItems ps z = some (m, r) → Matches ps m ∧ z = m ++ r := by
+  intro ps
+  induction ps with
+  | nil =>
+    intro z m r h
+    rw [matchItems_nil] at h
+    simp at h
+    obtain ⟨rfl, rfl⟩ := h
+    exact ⟨Matches.nil, rfl⟩
+  | cons it ps ih =>
+    intro z m r h
+    cases it with
+    | one cs =>
+      cases z with
+      | nil => rw [matchItems_one_nil] at h; exact absurd h (by simp)
+      | cons x z' =>
+        rw [matchItems_one_cons] at h
+        cases hc : cs.contains x with
+        | false => rw [hc] at h; simp at h
+        | true =>
+          rw [hc] at h
+          cases hm : matchItems ps z' with
+          | none => rw [hm] at h; simp at h
+          | some mr =>
+            obtain ⟨m', r'⟩ := mr
+            rw [hm] at h
+            simp at h
+            obtain ⟨rfl, rfl⟩ := h
+            obtain ⟨h1, h2⟩ := ih z' m' r' hm
+            exact ⟨Matches.one cs ps x m' hc h1, by rw [h2]; rfl⟩
+    | star cs =>
+      rw [matchItems_star] at h
+      cases hm : matchItems ps (z.dropWhile cs.contains) with
+      | none => rw [hm] at h; simp at h
+      | some mr =>
+        obtain ⟨m', r'⟩ := mr
+        rw [hm] at h
+        simp at h
+        obtain ⟨rfl, rfl⟩ := h
+        obtain ⟨h1, h2⟩ := ih _ m' r' hm
+        refine ⟨Matches.star cs ps _ m' (fun c hc => mem_takeWhile_imp _ z c hc) h1, ?_⟩
+        rw [List.append_assoc, ← h2, List.takeWhile_append_dropWhile]
+
+/-- for a `Det` sequence every declarative match is the one `matchItems` finds, whatever follows it -/
+theorem matchItems_complete : ∀ (ps : List PItem) (m : Str), Matches ps m → Det ps →
+    ∀ r : Str, matchItems ps (m ++ r) = some (m, r) := by
+  intro ps m hm
+  induction hm with
+  | nil => intro _ r; rw [List.nil_append, matchItems_nil]
+  | one cs ps c m hc _ ih =>
+    intro hd r
+    rw [List.cons_append, matchItems_one_cons, hc, ih hd r]
+    rfl
+  | star cs ps w m hw hm ih =>
+    intro hd r
+    cases hm with
+    | nil => exact absurd hd (by simp [Det])
+    | star cs' ps' w' m' _ _ => exact absurd hd (by simp [Det])
+    | one cs' ps' c m' hc hm' =>
+      have hdis : cs.contains c = false := hd.1 c (List.contains_iff_mem.mp hc)
+      have := ih hd.2 r
+      rw [List.append_assoc, List.cons_append, matchItems_star_run cs _ w c (m' ++ r) hw hdis]
+      rw [List.cons_append] at this
+      rw [this]
+      rfl
+
+/-- **greedy = declarative** for the deterministic sequences -/
+theorem matchItems_iff (ps : List PItem) (hd : Det ps) (z m r : Str) :
+    matchItems ps z = some (m, r) ↔ Matches ps m ∧ z = m ++ r :=
+  ⟨matchItems_sound ps z m r, fun ⟨h1, h2⟩ => by rw [h2]; exact matchItems_complete ps m h1 hd r⟩
+
+/-- a text has at most one prefix matched by a deterministic sequence -/
+theorem matches_unique (ps : List PItem) (hd : Det ps) (m₁ r₁ m₂ r₂ : Str) (h₁ : Matches ps m₁) (h₂ : Matches ps m₂)
+    (he : m₁ ++ r₁ = m₂ ++ r₂) : m₁ = m₂ ∧ r₁ = r₂ := by
+  have a := matchItems_complete ps m₁ h₁ hd r₁
+  have b := matchItems_complete ps m₂ h₂ hd r₂
+  rw [he, b] at a
+  simp at a
+  exact ⟨a.1.symm, a.2.symm⟩
+
+theorem det_ieOpenerPat : Det ieOpenerPat := ⟨by decide, by decide, trivial⟩
+theorem det_endHtmlPat : Det endHtmlPat := ⟨by decide, by decide, trivial⟩
+theorem det_startHtmlPat : Det startHtmlPat := ⟨by decide, by decide, trivial⟩
+
+/-- the declarative matches of the opener pattern are the explicit openers -/
+theorem matches_opener_iff (op : Str) : Matches ieOpenerPat op ↔ IsIEOpener op := by
+  constructor
+  · intro h
+    have := matchItems_complete ieOpenerPat op h det_ieOpenerPat []
+    rw [List.append_nil] at this
+    unfold ieOpenerPat ieCondPat at h
+    cases h with
+    | one _ _ c1 m1 hc1 h =>
+    cases h with
+    | one _ _ c2 m2 hc2 h =>
+    cases h with
+    | one _ _ c3 m3 hc3 h =>
+    cases h with
+    | one _ _ c4 m4 hc4 h =>
+    cases h with
+    | star _ _ w1 m5 hw1 h =>
+    cases h with
+    | one _ _ c5 m6 hc5 h =>
+    cases h with
+    | star _ _ w2 m7 hw2 h =>
+    cases h with
+    | one _ _ c6 m8 hc6 h =>
+    cases h with
+    | one _ _ c7 m9 hc7 h =>
+    cases h
+    simp at hc1 hc2 hc3 hc4 hc5 hc6 hc7
+    subst hc1 hc2 hc3 hc4 hc5 hc6 hc7
+    exact ⟨w1, w2, hw1, hw2, by simp⟩
+  · intro h
+    have := matchItems_opener op [] h
+    rw [List.append_nil] at this
+    exact (matchItems_sound _ _ _ _ this).1
+
+/-- `hasIEMarker`, explicitly: an opener stands somewhere in the text -/
+theorem occurs_iff (ps : List PItem) (s : Str) :
+    occurs ps s = true ↔ ∃ a m r, s = a ++ m ++ r ∧ matchItems ps (m ++ r) = some (m, r) := by
+  induction s with
+  | nil =>
+    constructor
+    · intro h
+      unfold occurs at h
+      cases hm : matchItems ps [] with
+      | none => rw [hm] at h; simp at h
+      | some mr =>
+        obtain ⟨m, r⟩ := mr
+        obtain ⟨_, h2⟩ := matchItems_sound ps [] m r hm
+        exact ⟨[], m, r, by simpa using h2, by rw [← h2]; exact hm⟩
+    · rintro ⟨a, m, r, h1, h2⟩
+      have : a = [] ∧ m = [] ∧ r = [] := by
+        have := congrArg List.length h1
+        simp at this
+        exact ⟨List.eq_nil_of_length_eq_zero (by omega), List.eq_nil_of_length_eq_zero (by omega),
+          List.eq_nil_of_length_eq_zero (by omega)⟩
+      obtain ⟨rfl, rfl, rfl⟩ := this
+      unfold occurs
+      rw [List.append_nil] at h2
+      rw [h2]; rfl
+  | cons c cs ih =>
+    rw [occurs_cons, Bool.or_eq_true]
+    constructor
+    · rintro (h | h)
+      · cases hm : matchItems ps (c :: cs) with
+        | none => rw [hm] at h; simp at h
+        | some mr =>
+          obtain ⟨m, r⟩ := mr
+          obtain ⟨_, h2⟩ := matchItems_sound ps _ m r hm
+          exact ⟨[], m, r, by simpa using h2, by rw [← h2]; exact hm⟩
+      · obtain ⟨a, m, r, h1, h2⟩ := ih.mp h
+        exact ⟨c :: a, m, r, by rw [h1]; simp, h2⟩
+    · rintro ⟨a, m, r, h1, h2⟩
+      cases a with
+      | nil =>
+        left
+        rw [List.nil_append] at h1
+        rw [h1, h2]; rfl
+      | cons a0 a' =>
+        right
+        simp at h1
+        exact ih.mpr ⟨a', m, r, by rw [h1.2]; simp, h2⟩
+
+theorem hasIEMarker_iff (s : Str) : hasIEMarker s = true ↔ ∃ a op b, IsIEOpener op ∧ s = a ++ op ++ b := by
+  unfold hasIEMarker
+  rw [occurs_iff]
+  constructor
+  · rintro ⟨a, m, r, h1, h2⟩
+    exact ⟨a, m, r, (matches_opener_iff m).mp (matchItems_sound _ _ _ _ h2).1, h1⟩
+  · rintro ⟨a, op, b, hop, h1⟩
+    exact ⟨a, op, b, h1, matchItems_opener op b hop⟩
+
 /-! ### greedy `.*-->` -/
 
 theorem throughLastArrow_none_iff (l : Str) : throughLastArrow l = none ↔ hasArrow l = false := by
@@ -425,6 +635,104 @@ theorem ieMatchAt_cond (op body post : Str) (hop : IsIEOpener op) (hbody : '\n' 
   have e2 : body ++ arrow ++ post = (body ++ arrow) ++ post := rfl
   rw [e2, takeWhile_append_all _ post (body ++ arrow) hall, throughLastArrow_append _ hline body]
   simp
+
+/-! ### the explicit reading of one match of `IE_CONDITIONAL_PATTERN` -/
+
+theorem hasArrow_tail2 (c d : Char) (t : Str) (h : hasArrow (c :: d :: t) = false) : hasArrow t = false := by
+  unfold hasArrow at h
+  rw [Bool.or_eq_false_iff] at h
+  have h2 := h.2
+  unfold hasArrow at h2
+  rw [Bool.or_eq_false_iff] at h2
+  exact h2.2
+
+theorem throughLastArrow_some : ∀ (l a b : Str), throughLastArrow l = some (a, b) →
+    ∃ body, a = body ++ arrow ∧ l = a ++ b ∧ hasArrow b = false := by
+  intro l
+  induction l with
+  | nil => intro a b h; simp [throughLastArrow] at h
+  | cons c cs ih =>
+    intro a b h
+    unfold throughLastArrow at h
+    cases ht : throughLastArrow cs with
+    | some ab =>
+      obtain ⟨a', b'⟩ := ab
+      rw [ht] at h
+      simp at h
+      obtain ⟨rfl, rfl⟩ := h
+      obtain ⟨body, h1, h2, h3⟩ := ih a' b' ht
+      exact ⟨c :: body, by rw [h1]; rfl, by rw [h2]; rfl, h3⟩
+    | none =>
+      rw [ht] at h
+      simp only at h
+      by_cases hp : arrow.isPrefixOf (c :: cs) = true
+      · rw [if_pos hp] at h
+        simp at h
+        obtain ⟨rfl, rfl⟩ := h
+        obtain ⟨t, ht2⟩ := List.isPrefixOf_iff_prefix.mp hp
+        have hcs : cs = '-' :: '>' :: t := by
+          simp [arrow] at ht2
+          exact ht2.2.symm
+        refine ⟨[], rfl, ?_, ?_⟩
+        · rw [hcs]; simp [arrow] at ht2 ⊢; exact ht2.1.symm
+        · rw [hcs]
+          simp only [List.drop_succ_cons, List.drop_zero]
+          have := (throughLastArrow_none_iff cs).mp ht
+          rw [hcs] at this
+          exact hasArrow_tail2 _ _ _ this
+      · rw [if_neg hp] at h
+        exact absurd h (by simp)
+
+theorem takeWhile_dropWhile_nil (p : Char → Bool) : ∀ l : Str, (l.dropWhile p).takeWhile p = [] := by
+  intro l
+  induction l with
+  | nil => rfl
+  | cons c cs ih =>
+    by_cases hc : p c = true
+    · simp only [List.dropWhile_cons, hc, if_true]; exact ih
+    · simp [hc]
+
+/-- **one match, explicitly**: `IE_CONDITIONAL_PATTERN.match(z)` gives `m` iff `m` is an opener, a body that
+    stays on the line, and `-->`, in front of a rest whose first line has no further `-->` -/
+theorem ieMatchAt_iff (z m : Str) : ieMatchAt z = some m ↔
+    ∃ op body rest, IsIEOpener op ∧ '\n' ∉ body ∧ m = op ++ body ++ arrow ∧ z = m ++ rest ∧
+      hasArrow (rest.takeWhile (· ≠ '\n')) = false := by
+  constructor
+  · intro h
+    unfold ieMatchAt at h
+    cases hm : matchItems ieOpenerPat z with
+    | none => rw [hm] at h; simp at h
+    | some opr =>
+      obtain ⟨op, r⟩ := opr
+      rw [hm] at h
+      simp only at h
+      obtain ⟨hop, hz⟩ := matchItems_sound _ _ _ _ hm
+      cases ht : throughLastArrow (r.takeWhile (· ≠ '\n')) with
+      | none => rw [ht] at h; simp at h
+      | some ab =>
+        obtain ⟨a, b⟩ := ab
+        rw [ht] at h
+        simp at h
+        obtain ⟨body, ha, hl, hb⟩ := throughLastArrow_some _ a b ht
+        have hall : ∀ c ∈ a ++ b, (fun c : Char => decide (c ≠ '\n')) c = true := by
+          intro c hc
+          rw [← hl] at hc
+          exact mem_takeWhile_imp _ r c hc
+        refine ⟨op, body, b ++ r.dropWhile (· ≠ '\n'), (matches_opener_iff op).mp hop, ?_, ?_, ?_, ?_⟩
+        · intro hn
+          have := hall '\n' (by rw [ha]; simp [hn])
+          simp at this
+        · rw [← h, ha]; simp
+        · rw [hz, ← h]
+          have : r = a ++ b ++ r.dropWhile (· ≠ '\n') := by
+            rw [← hl, List.takeWhile_append_dropWhile]
+          conv => lhs; rw [this]
+          simp
+        · rw [takeWhile_append_all _ _ b (fun c hc => hall c (List.mem_append_right _ hc)),
+            takeWhile_dropWhile_nil, List.append_nil]
+          exact hb
+  · rintro ⟨op, body, rest, hop, hbody, rfl, rfl, hline⟩
+    exact ieMatchAt_cond op body rest hop hbody hline
 
 theorem ieFindAll_single (pre op body post : Str) (hop : IsIEOpener op) (hbody : '\n' ∉ body)
     (hpre : hasIEMarker pre = false) (hpost : hasIEMarker post = false)
